@@ -807,6 +807,7 @@ func runHistory(ts *TypeSpec, tree *Node, i int, r *vlib.Rand, where string, cle
 		}
 		h.syncDerived()
 		c.Count("history_rewrites_compared", 1)
+		c.Eval(1) // each compared rewrite is one evaluation of the oracle
 		c.DistinctBytes(got)
 		if h.found {
 			break // object and model have parted over a listed finding
